@@ -144,6 +144,8 @@ pub struct World {
     pub tasks: BTreeMap<TaskId, BoxFut>,
     pub wakeq: Arc<WakeQueue>,
     pub jobs: BTreeMap<JobId, Job>,
+    /// the blocking job that is executing right now (a handler can note which job runs it)
+    pub current_job: Option<JobId>,
     pub timers: BTreeMap<(u64, u64), Waker>,
     pub net: net::Net,
     pub fs: fs::FsState,
@@ -171,6 +173,7 @@ impl World {
                 foreign_wake: AtomicBool::new(false),
             }),
             jobs: BTreeMap::new(),
+            current_job: None,
             timers: BTreeMap::new(),
             net: net::Net::default(),
             fs: fs::FsState::default(),
@@ -404,8 +407,12 @@ pub fn start_job(id: JobId) {
     heartbeat();
     let job = with(|w| w.jobs.remove(&id));
     if let Some(Job::Queued(run)) = job {
-        with(|w| w.log(Ev::JobStarted(id)));
+        with(|w| {
+            w.log(Ev::JobStarted(id));
+            w.current_job = Some(id);
+        });
         let deliver = run();
+        with(|w| w.current_job = None);
         with(|w| {
             w.jobs.insert(id, Job::Running(deliver));
         });
